@@ -78,6 +78,13 @@ class Builder:
         d.update(extra)
         return d
 
+    # ---- a process that is interrupted by signals all the time (driver only: the model sees a call that changes nothing)
+    def wait(self, ms):
+        self.add_call(("W", ms, self.mode), kind="M")
+
+    def signals(self, on):
+        self.add_call(("Z", on, self.mode), kind="M")
+
     # ---- observers
     def add_observer(self, o):
         self.observers.append(o)
